@@ -11,7 +11,7 @@
    The mode-selection helper is the GENERATED tt_dimscheck (Gen/GenUtils.v).
    Definitions only; proofs are in Proofs/C19Proofs.v. *)
 From Coq Require Import List ZArith Bool.
-From PV Require Import Np.NpZ Np.NpZ2 Gen.GenUtils Gen.GenUtils2.
+From PV Require Import Np.NpZ Np.NpZ2 Np.NpZ3 Gen.GenUtils Gen.GenUtils2 Gen.GenUtils3.
 Import ListNotations.
 Local Open Scope Z_scope.
 
@@ -331,8 +331,11 @@ Definition guard_import (type_ok : bool) (n k : Z) : res unit := chk type_ok ;; 
 (* ======================================================================================== *)
 (* wave 2: guard models of the repaired and of further operations                             *)
 (* ======================================================================================== *)
-(* K.redistribute(mode): "mode not in range(ndims)" (C19-N07 repaired) *)
-Definition guard_mode (s : vec) (n : Z) : res unit := chk (in_range (ndim s) n).
+(* K.redistribute(mode): "mode not in range(self.ndims)" (C19-N07 repaired); K.normalize(mode = n): "mode in range(self.ndims)".
+   Python's membership test on the enumerated range 0, 1, ..., ndims-1 (transliterated as membership in the list of modes, not as the
+   two comparisons of the precondition).  The generated ktensor_redistribute (Gen/GenMethods3.v) is tied to this guard in
+   Proofs/C19W4.v. *)
+Definition guard_mode (s : vec) (n : Z) : res unit := chk (zmem n (np_arange 0 (ndim s))).
 
 (* get_mttkrp_factors(U, n, ndims): list length, "0 <= n < ndims" (C19-N08 / C19-N10 repaired), then
    "len({U[i].shape[1] for i != n}) > 1" (C19-N09 repaired): the matrices other than U[n] have one column count — once the
@@ -558,13 +561,15 @@ Definition guard_ttensor_ttm (s : vec) (ms : list shp2) (dims excl : option vec)
    have become dense: tensor.ttm performs the same comparison): the chain of tensor.ttm *)
 Definition guard_sptensor_ttm := guard_tensor_ttm.
 
-(* sptensor.mttkrp(U, n): the helper (column counts compared: C19-N09 repaired); R = U[1 or 0].shape[1]; for r < R: column r
-   of every U[i], i <> n, then ttv with exclude_dims = n on vectors of lengths rows(U[i]) (an empty vector in position n).
-   With R = 0 the loop body never runs: the row counts are not looked at (C19-N20) *)
+(* sptensor.mttkrp(U, n): the helper (column counts compared: C19-N09 repaired); the row loop "U[i].shape[0] != self.shape[i]" for
+   i <> n (C19-N20 repaired: before, the row counts were looked at only inside the loop over the columns); R = U[1 or 0].shape[1];
+   for r < R: column r of every U[i], i <> n, then ttv with exclude_dims = n on vectors of lengths rows(U[i]) (an empty vector in
+   position n). *)
 Definition guard_sptensor_mttkrp (s : vec) (us : list shp2) (n : Z) : res unit :=
   let N := ndim s in let R := mttkrp_R us n in
   let ius := combine (np_arange 0 N) us in
   guard_mttkrp_factors N us n ;;
+  chk_all (fun iu => chk ((fst iu =? n) || (rows (snd iu) =? sz s (fst iu)))) ius ;;
   chk (np_idx_ok (zlen us) (if n =? 0 then 1 else 0)) ;;
   if R <=? 0 then Ok tt
   else chk (forallb (fun iu => (fst iu =? n) || (R <=? cols (snd iu))) ius) ;;
@@ -577,11 +582,27 @@ Definition guard_sptensor_extract (s : vec) (subs : list vec) : res unit :=
   chk (k =? ndim s) ;; chk (forallb (fun row => forallb (fun p => in_range (snd p) (fst p)) (combine row s)) subs).
 
 
-(* sptensor.from_aggregator(subs, vals, shape) with subs a rectangular p x k array and vals nvals x 1: tt_subscheck (no
-   negative subscript), the value count only "if subs.size > 1", tt_sizecheck (positive sizes), "subs.shape[1] > len(shape)",
-   per mode j "max(subs[:, j]) >= shape[j]" (IndexError when subs has fewer than j+1 columns), then accumarray (values and
-   subscripts must have the same length).  A subscript array without elements skips everything but the size check (C19-N18). *)
+(* sptensor.from_aggregator(subs, vals, shape) with subs a rectangular p x k integer array, vals an nvals x 1 array and shape a
+   tuple of ints, in the order of the code: the GENERATED tt_subscheck(subs, False) and tt_valscheck(vals, False)
+   (Gen/GenUtils3.v, regenerated from pyttb_utils.py on every run), the value count only "if subs.size > 1", the GENERATED
+   tt_sizecheck(shape, False), "subs.size > 0 and subs.shape[1] > len(shape)", per mode j "subs.size > 0 and
+   max(subs[:, j]) >= shape[j]" (IndexError when subs has fewer than j+1 columns), then — unless subs.size == 0 — accumarray
+   (values and subscripts must have the same length).  A subscript array without elements skips everything but the size
+   check (C19-N18). *)
+Definition nd_ints (shp l : vec) : ndarr := mknd shp DInt (map NFin l).
+Definition okres {A} (r : res A) : res unit := match r with Ok _ => Ok tt | Err => Err end.
 Definition guard_from_aggregator (s : vec) (subs : list vec) (nvals : Z) : res unit :=
+  let p := zlen subs in let k := zlen (hd [] subs) in let N := ndim s in
+  okres (tt_subscheck (nd_ints [p; k] (concat subs)) false) ;;
+  okres (tt_valscheck (nd_ints [nvals; 1] (np_full nvals 0)) false) ;;
+  (if (1 <? p * k) && negb (nvals =? p) then Err else Ok tt) ;;
+  okres (tt_sizecheck (nd_ints [N] s) false) ;;
+  (if (0 <? p * k) && (N <? k) then Err else Ok tt) ;;
+  chk_all (fun j => if 0 <? p * k then chk (j <? k) ;; chk (forallb (fun row => znth 0 row j <? sz s j) subs) else Ok tt)
+          (np_arange 0 N) ;;
+  if p * k =? 0 then Ok tt else chk (nvals =? p).
+(* the same checks with the three helpers written out by hand (Proofs/C19W4.v: equal to the guard over the generated helpers) *)
+Definition guard_from_aggregator_hand (s : vec) (subs : list vec) (nvals : Z) : res unit :=
   let p := zlen subs in let k := zlen (hd [] subs) in let N := ndim s in
   if p * k =? 0 then chk (all_pos s)
   else chk (forallb (forallb (fun x => 0 <=? x)) subs) ;;
@@ -605,3 +626,71 @@ Definition guard_gcp_opt (s : vec) (rank : Z) (init : initk) (opt_ok : bool) : r
   | InitNvecs | InitBogus => Err
   end ;;
   chk opt_ok.
+
+(* ======================================================================================== *)
+(* wave 4                                                                                     *)
+(* ======================================================================================== *)
+(* sptensor.innerprod(other) with other a Kruskal or Tucker tensor: the shape tests in front of the early return look at sparse and
+   dense operands only, so a receiver that stores no entry answers 0 (C19-N21, open); a receiver with entries hands the call to
+   other.innerprod(self), which compares "self.shape != other.shape" with the operands swapped *)
+Definition guard_sptensor_innerprod_kt (s : vec) (empty : bool) (u : vec) : res unit :=
+  if empty then Ok tt else guard_same_shape u s.
+
+(* sptensor.contract(i1, i2) as REPAIRED by fixes/C19-N22.diff (the dense method has the range test since d384651; the sparse one
+   indexes self.shape and self.subs with the modes as they come, so negative modes wrap around: C19-N22, open): range, equal sizes,
+   different modes; nothing later rejects *)
+Definition guard_sptensor_contract (s : vec) (i1 i2 : Z) : res unit :=
+  let N := ndim s in
+  chk (in_range N i1 && in_range N i2) ;; chk (sz s i1 =? sz s i2) ;; chk (negb (i1 =? i2)).
+
+(* sptensor.nvecs(n, r) as REPAIRED by fixes/C19-N23.diff: "n not in range(self.ndims)" first (today the mode is only used in
+   np.setdiff1d(arange(ndims), n), which silently ignores a mode that does not exist: C19-N23, open) *)
+Definition guard_sptensor_nvecs (s : vec) (n : Z) : res unit := guard_mode s n.
+
+(* sptensor.scale(factor, dims), factor a dense or sparse tensor: the generated tt_dimscheck, then "if self.nnz == 0: return
+   self.copy()" BEFORE "np.array_equal(factor.shape, shape[dims])": a receiver that stores no entry answers whatever the factor's
+   shape (C19-N24, open); otherwise as tensor.scale *)
+Definition guard_sptensor_scale (s : vec) (empty : bool) (f d : vec) : res unit :=
+  match tt_dimscheck (ndim s) None (Some d) None with
+  | Err => Err
+  | Ok (sd, _) => if empty then Ok tt else chk (shape_eqb f (pickz s sd))
+  end.
+Definition pre_sptensor_scale (s : vec) (empty : bool) (f d : vec) : bool := pre_scale s f d.
+
+(* K.update(modes, data) (in place): modes strictly ascending, each one -1 (the weights) or a mode of the tensor, and data long enough
+   for the blocks that are asked for (R entries for the weights, shape[k] * R for factor k; surplus data only raises a warning,
+   which upstream tests pin).  Guard = the code AS REPAIRED by fixes/C19-N25.diff: the sortedness test "np.all(modes[:-1] <
+   modes[1:])", then a validation loop over the modes that adds up `needed` and stops at the first invalid mode, then "len(data) <
+   needed" — all before the first in-place assignment.  (Today the tests sit inside the update loop: a request that fails at a later
+   block has already overwritten the earlier ones, modes below -1 wrap around, repeated modes pass "<=": C19-N25, open.) *)
+Definition upd_need (s : vec) (R : Z) (k : Z) : Z := if k =? -1 then R else sz s k * R.
+Definition zsum (l : vec) : Z := fold_right Z.add 0 l.
+Fixpoint strict_asc (l : vec) : bool :=
+  match l with
+  | x :: r => match r with y :: _ => (x <? y) && strict_asc r | [] => true end
+  | [] => true
+  end.
+Definition upd_mode_ok (N k : Z) : bool := (k =? -1) || in_range N k.
+Definition pre_ktensor_update (s : vec) (R : Z) (modes : vec) (dlen : Z) : bool :=
+  strict_asc modes && forallb (upd_mode_ok (ndim s)) modes && (zsum (map (upd_need s R) modes) <=? dlen).
+Fixpoint upd_validate (s : vec) (R : Z) (modes : vec) (needed : Z) : res Z :=
+  match modes with
+  | [] => Ok needed
+  | k :: r => if k =? -1 then upd_validate s R r (needed + R)
+              else if (0 <=? k) && (k <? ndim s) then upd_validate s R r (needed + sz s k * R)
+              else Err
+  end.
+Definition guard_ktensor_update (s : vec) (R : Z) (modes : vec) (dlen : Z) : res unit :=
+  chk (forallb (fun p => fst p <? snd p) (combine modes (tl modes))) ;;
+  match upd_validate s R modes 0 with
+  | Err => Err
+  | Ok needed => chk (negb (dlen <? needed))
+  end.
+
+(* X.mask(W) (tensor, sptensor, ktensor): "Mask cannot be bigger than the data tensor" — W has the order of X and no mode of W is
+   longer than the mode of X.  The code: "len(W.shape) != len(self.shape) or np.any(np.array(W.shape) > np.array(self.shape))"
+   (sptensor, ktensor; tensor.mask as repaired by fixes/C19-N26.diff — today it lacks the first test and numpy broadcasts the
+   comparison of the two size vectors: C19-N26, open) *)
+Definition pre_mask (s w : vec) : bool := (zlen w =? zlen s) && forallb (fun p => fst p <=? snd p) (combine w s).
+Definition guard_mask (s w : vec) : res unit :=
+  if negb (zlen w =? zlen s) || existsb (fun p => fst p >? snd p) (combine w s) then Err else Ok tt.
